@@ -35,7 +35,7 @@ def parseK (k : String) : Option Nat :=
   let k := if k.startsWith "s" then (k.drop 1).toString else k
   if k == "L" then some 64 else k.toNat?
 
-def parseOp (t : String) : Option Op :=
+def parseOp (W : Nat) (t : String) : Option Op :=
   match t.splitOn ":" with
   | [o] =>
     if o == "ib" then some .isBig else if o == "nz" then some .notZero else if o == "iz" then some .isZero
@@ -63,7 +63,17 @@ def parseOp (t : String) : Option Op :=
       else if o == "req" then some (.rcmp .eq x) else if o == "rne" then some (.rcmp .ne x)
       else if o == "nw" then some (.narrow x) else none
   | [o, k, a] =>
-    match (if o == "ai" || o == "si" || o == "st" then k.toNat? else parseK k), a.toNat? with
+    -- a negative operand of a signed type is its two's-complement value at width max(K, W)
+    let kv : Option (Nat × Nat) :=
+      if o == "ai" || o == "si" || o == "st" then
+        (match k.toNat?, a.toNat? with | some k, some x => some (k, x) | _, _ => none)
+      else
+        match parseK k with
+        | none => none
+        | some K =>
+          if a.startsWith "-" then (a.toInt?).map fun x => (max K W, signedOperand W K x)
+          else a.toNat?.map fun x => (K, x)
+    match kv.map (·.1), kv.map (·.2) with
     | some k, some x =>
       if o == "cn" then some (.construct k x) else if o == "ai" then some (.addAt x k)
       else if o == "si" then some (.subAt x k) else if o == "st" then some (.store k x) else
@@ -73,11 +83,11 @@ def parseOp (t : String) : Option Op :=
     | _, _ => none
   | _ => none
 
-def parseOp2 (t : String) : Option Op2 :=
+def parseOp2 (W : Nat) (t : String) : Option Op2 :=
   if t == "sv" then some .save else if t == "ld" then some .load else if t == "mv" then some .move
   else if t == "sa" then some .selfCopy else if t == "sm" then some .selfMove
   else if t == "cc" then some .copyCtor else if t == "mc" then some .moveCtor
-  else (parseOp t).map .on
+  else (parseOp W t).map .on
 
 def trimZeros (ws : List Nat) : List Nat :=
   (ws.reverse.dropWhile (· == 0)).reverse
@@ -214,7 +224,7 @@ def handle (op : String) (args : List String) : String :=
   if op == "bigseq" then
     match args with
     | w :: n :: ops =>
-      match w.toNat?, n.toNat?, ops.mapM parseOp2 with
+      match w.toNat?, n.toNat?, ops.mapM (parseOp2 (w.toNat?.getD 0)) with
       | some W, some n, some ops => " ".intercalate (runSeq (Cfg.std W) ⟨zero n, zero n⟩ ops [])
       | _, _, _ => "bad-op"
     | _ => "bad-op"
@@ -224,7 +234,7 @@ def handle (op : String) (args : List String) : String :=
       match w.toNat?, n.toNat?, k.toNat? with
       | some W, some n, some k =>
         if rest.length != 2 * k then "bad-op" else
-        match (rest.take k).mapM parseOp2 with
+        match (rest.take k).mapM (parseOp2 W) with
         | some ops => oracle W n 0 (some 0) (some 0) ops (rest.drop k) 0
         | none => "bad-op"
       | _, _, _ => "bad-op"
